@@ -609,7 +609,7 @@ def c19(acc):
     writer_traces(acc, 400 if q else 5000)
     # the serde serializer's indentation obeys the same rule: indented and plain serializations of every family value
     # (mixed text/element content included) read back as the same logical document and deserialize to equal values
-    _, ps = mc_serde(acc, RT_TYPES, "rt", "MC_Serde-c19")
+    _, ps = mc_serde(acc, RT_TYPES + ["H07"], "rt", "MC_Serde-c19")
     serde_replay(acc, ps, "c19", "B:serde values x quote levels x {plain, 2 blanks, tab} x expand-empty (indentation must not touch content)")
     return acc.finish()
 
@@ -641,7 +641,7 @@ def c17(acc):
     return acc.finish()
 
 
-RT_TYPES = ["F01", "F02", "F03", "F04", "F05", "F07", "F08", "F11", "F15", "F16", "F17", "F18", "F19", "F20", "F22", "F23", "F24", "F25", "F26", "F27", "F28", "F29"]
+RT_TYPES = ["F01", "F02", "F03", "F04", "F05", "F07", "F08", "F11", "F15", "F16", "F17", "F18", "F19", "F20", "F22", "F23", "F24", "F25", "F26", "F27", "F28", "F29", "F30", "F31"]
 
 
 def mc_serde(acc, types, mode, name, timeout=2500):
@@ -704,7 +704,7 @@ def c13(acc):
                 "parse without error (reader + attribute iteration), be properly nested and read back as exactly the model's logical document (injection freedom: "
                 "names/structure never depend on payloads). (C) real output parsed by the spec reader. non-trivial = documents with more than 4 logical events")
     acc.trusted = SERDE_TRUST
-    _, p = mc_serde(acc, RT_TYPES + ["H01", "H02", "H05", "H06"], "all", "MC_Serde-all")
+    _, p = mc_serde(acc, RT_TYPES + ["H01", "H02", "H05", "H06", "H07"], "all", "MC_Serde-all")
     serde_replay(acc, p, "c13", "B:replay values incl. hostile (well-formedness, data carried)")
     serde_traces(acc, p, 6 if q else 1, "C:real serializer output parsed by the spec reader")
     return acc.finish()
@@ -795,6 +795,8 @@ def c15(acc):
     de_replay(acc, p, "rewrite", "B:rewritten documents deserialize to the original value", extra=["--sizes", ""])
     # the deserializer's other build variant (feature overlapped-lists off) skips unknown subtrees with different code
     de_replay(acc, p, "rewrite", "B:the same with a quick-xml built without overlapped-lists", extra=["--sizes", ""], flavour="nool")
+    # ... and with the encoding feature (every text piece / CDATA / attribute value is decoded separately)
+    de_replay(acc, p, "rewrite", "B:the same with a quick-xml built with the encoding feature", extra=["--sizes", ""], flavour=True)
     return acc.finish()
 
 
